@@ -990,7 +990,19 @@ func (x *Exec) evalBuiltin(st *State, call *ast.CallExpr, name string) T {
 		for _, a := range call.Args[1:] {
 			v := x.eval(st, a)
 			v = x.convertForAssign(st, v, et)
-			arr = fmt.Sprintf("(store %s (+ %s %s %d) %s)", arr, off, ln, n, v.S)
+			var terms []string
+			if off != "0" {
+				terms = append(terms, off)
+			}
+			terms = append(terms, ln)
+			if n != 0 {
+				terms = append(terms, fmt.Sprint(n))
+			}
+			pos := terms[0]
+			if len(terms) > 1 {
+				pos = "(+ " + strings.Join(terms, " ") + ")"
+			}
+			arr = fmt.Sprintf("(store %s %s %s)", arr, pos, v.S)
 			n++
 		}
 		return T{S: fmt.Sprintf("(mk-slc %s %s (+ %s %d))", arr, off, ln, n), Ty: bt}
